@@ -393,12 +393,13 @@ Proof.
   rewrite H13. cbn [andb].
   destruct (zlen ct >? c_recv_limit c + 256) eqn:E2; [lia|].
   rewrite Ht13, Henc, Haead. change (23 =? 20) with false. change (23 =? 21) with false. cbn [andb].
+  rewrite ?andb_false_r. cbn [andb].
   unfold decrypt_and_unseal. rewrite next_seq_ok by lia. cbn [rbind]. rewrite Hexp, <- Hseq, Hgn. cbn [rbind].
   destruct (c_tag c >? zlen ct) eqn:E3; [lia|]. rewrite Ht13.
   change (23 =? 23) with true. change (pairZ_eqb (3, 3) (3, 3)) with true. cbn [negb rbind].
   rewrite Hslen. fold ct. rewrite Hopen. cbn [rbind].
   destruct (zlen inner >? c_recv_limit c + 1) eqn:E4; [lia|].
-  unfold inner. rewrite de_pad_spec by lia. cbn [rbind].
+  unfold inner. rewrite de_pad_spec by lia. cbn [rbind]. rewrite E20. cbn [rbind].
   destruct (zlen data >? c_recv_limit c) eqn:E5; [lia|].
   split; [reflexivity|]. split.
   { unfold sync. cbn [set_cs st_cs st_seq]. split; [exact HR|]. split; lia. }
